@@ -131,8 +131,8 @@ def panicSites : List String := [
   "gtfs.parseVehicle: deref *vehiclePosition.CongestionLevel  [guard: nil-checked]",
   "gtfs.parseVehicleDescriptor: deref *s  [guard: nil-checked]",
   "journal.BuildJournal: deref *trips[tripID]  [unguarded: journal: deref *journal.Trip]",
-  "journal.DirectoryGtfsrtSource.Next: index s.filePaths[0]  [guard: len-checked]",
-  "journal.DirectoryGtfsrtSource.Next: slice s.filePaths[1:]  [guard: len-checked]",
+  "journal.DirectoryGtfsrtSource.Next: index s.fileNames[0]  [guard: len-checked]",
+  "journal.DirectoryGtfsrtSource.Next: slice s.fileNames[1:]  [guard: len-checked]",
   "journal.Trip.markPast: index trip.StopTimes[i]  [guard: bounds-checked]",
   "journal.Trip.update: index p.new[i]  [guard: range-index]",
   "journal.Trip.update: index p.past[i]  [guard: range-index]",
